@@ -3,6 +3,7 @@ EXTENDS TxPipeline
 \* three transactions: 1 and 2 double-spend outpoint 1 (both relevant), 3 spends outpoint 2 (not relevant); one block <<2,3>>
 Ins3 == <<{1}, {1}, {2}>>
 Rel3 == <<TRUE, TRUE, FALSE>>
+Rel3b == <<TRUE, FALSE, FALSE>>     \* the double spend of the relevant transaction 1 is itself not relevant
 Blk3 == << <<2, 3>> >>
 \* four transactions: 1,2 conflict on outpoint 1; 3 spends outpoints 1 and 2 (partial overlap); 4 spends outpoint 3; two blocks
 Ins4 == <<{1}, {1}, {1, 2}, {3}>>
